@@ -20,6 +20,10 @@
 //        -> "dgram <id> rx=<what nng sent to each sender: c = CACK, d<reason> = DISC> wt=<timed-out waits> ctl=..
 //            ports=<sender ports> pipes=<id>@<peer port>,.. n=<k> [D ...]"
 //   dflood <id> <n> <datagram-hex>...      (udp only) n senders, no waiting in between
+//   dhold <id> <n> <datagram-hex>          (udp only) n fresh senders each send the datagram, read nng's answer and STAY (their
+//        associations are kept up: nothing says DISC)   -> "dhold <id> opened=<k> cack=<a> nobuf=<b> other=<c> add=<n>"
+//   dfree <id>                             every held sender says DISC and goes; waits for the removal of their pipes
+//        -> "dfree <id> n=<k> rem=<n>"
 //   flood <id> <n> <bytes-hex|->   n connections each writing the bytes, all held open during a control
 //        exchange, then closed            -> "flood <id> opened=<k> ctl=<..> add=<n> rem=<n> n=<k> [D ...]"
 //   ctl                            one control exchange            -> "ctl ok" | "ctl FAIL:<why>"
@@ -43,6 +47,7 @@
 #include <pthread.h>
 #include <signal.h>
 #include <stdio.h>
+#include <sys/resource.h>
 #include <sys/socket.h>
 #include <sys/stat.h>
 #include <time.h>
@@ -543,19 +548,43 @@ udp_hdr(uint8_t *d, uint8_t op, uint16_t type, uint16_t p0, uint16_t p1)
 	d[7] = (uint8_t) (p1 >> 8);
 }
 
+// does nng still hold an association (a pipe that was added and not removed) for this source port?  Senders that just
+// vanished (dflood's every third one) leave theirs behind until it expires or the socket closes; the kernel may hand the
+// same ephemeral port to a later sender, which nng would then treat as that old peer.
+static bool
+port_has_pipe(uint16_t port)
+{
+	bool found = false;
+	pthread_mutex_lock(&mtx);
+	for (size_t i = 0; i < nadded && !found; i++) {
+		found = !gone[i] && aport[i] == port;
+	}
+	pthread_mutex_unlock(&mtx);
+	return (found);
+}
+
+static int parked[64]; // sockets holding such ports, so that the kernel does not hand them out again; closed with the socket
+static int nparked;
+
 static int
 udp_socket(void)
 {
-	int                fd = socket(AF_INET, SOCK_DGRAM, 0);
-	struct sockaddr_in sa;
-	memset(&sa, 0, sizeof(sa));
-	sa.sin_family      = AF_INET;
-	sa.sin_addr.s_addr = htonl(INADDR_LOOPBACK);
-	if (fd >= 0 && bind(fd, (struct sockaddr *) &sa, sizeof(sa)) != 0) {
-		close(fd);
-		return (-1);
+	for (;;) {
+		int                fd = socket(AF_INET, SOCK_DGRAM, 0);
+		struct sockaddr_in sa;
+		socklen_t          sl = sizeof(sa);
+		memset(&sa, 0, sizeof(sa));
+		sa.sin_family      = AF_INET;
+		sa.sin_addr.s_addr = htonl(INADDR_LOOPBACK);
+		if (fd >= 0 && bind(fd, (struct sockaddr *) &sa, sizeof(sa)) != 0) {
+			close(fd);
+			return (-1);
+		}
+		if (fd < 0 || nparked >= 64 || getsockname(fd, (struct sockaddr *) &sa, &sl) != 0 || !port_has_pipe(ntohs(sa.sin_port))) {
+			return (fd);
+		}
+		parked[nparked++] = fd;
 	}
-	return (fd);
 }
 
 static ssize_t
@@ -1388,6 +1417,87 @@ cmd_dflood(char **w, int nw)
 	free(fds);
 }
 
+// dhold <id> <n> <datagram-hex>: n fresh senders each send the datagram once, wait for nng's answer (bounded) and stay; their
+//   sockets are kept until dfree.  Used to fill the listener's peer table (NNG_UDP_MAX_PEERS) with well-formed CREQs.
+static int   *held;
+static int    nheld;
+static size_t held_added;
+
+static void
+cmd_dhold(char **w, int nw)
+{
+	int      n = atoi(w[2]), opened = 0, cack = 0, nobuf = 0, other = 0;
+	size_t   afrom, len;
+	uint8_t *b;
+	(void) nw;
+	if (n < 1 || n > 60000 || held != NULL) {
+		printf("dhold %s FAIL:usage\n", w[1]);
+		return;
+	}
+	held = calloc((size_t) n, sizeof(int));
+	b    = rp_parse_bytes(w[3], &len);
+	pthread_mutex_lock(&mtx);
+	afrom = nadded;
+	pthread_mutex_unlock(&mtx);
+	for (int i = 0; i < n; i++) {
+		uint8_t r[64];
+		ssize_t m;
+		int     fd = udp_socket();
+		if (fd < 0) {
+			break;
+		}
+		held[nheld++] = fd;
+		opened++;
+		(void) sendto(fd, b, len, 0, (struct sockaddr *) &udp_addr, sizeof(udp_addr));
+		m = udp_recv(fd, r, sizeof(r), TMO);
+		if (m >= 8 && r[1] == 2) {
+			cack++;
+		} else if (m >= 8 && r[1] == 3 && (r[4] | (r[5] << 8)) == 8) {
+			nobuf++;
+		} else {
+			other++;
+		}
+		if ((i & 63) == 63) {
+			alarm((unsigned) (12 * TMO / 1000 + 30));
+		}
+	}
+	free(b);
+	(void) wait_added(afrom + (size_t) cack, TMO);
+	pthread_mutex_lock(&mtx);
+	held_added = nadded - afrom;
+	pthread_mutex_unlock(&mtx);
+	printf("dhold %s opened=%d cack=%d nobuf=%d other=%d add=%zu\n", w[1], opened, cack, nobuf, other, held_added);
+}
+
+static void
+cmd_dfree(char **w)
+{
+	uint8_t d[8];
+	size_t  rfrom, rem;
+	int     n = nheld;
+	pthread_mutex_lock(&mtx);
+	rfrom = nremoved + nrem_unadded;
+	pthread_mutex_unlock(&mtx);
+	udp_hdr(d, 3, peer_proto, 0, 0);
+	for (int i = 0; i < nheld; i++) {
+		(void) sendto(held[i], d, 8, 0, (struct sockaddr *) &udp_addr, sizeof(udp_addr));
+		if ((i & 255) == 255) {
+			usleep(2000); // do not overrun nng's socket buffer: a lost DISC would leave the pipe to the inactivity timer
+		}
+	}
+	(void) wait_reaped(rfrom + held_added, TMO);
+	pthread_mutex_lock(&mtx);
+	rem = nremoved + nrem_unadded - rfrom;
+	pthread_mutex_unlock(&mtx);
+	for (int i = 0; i < nheld; i++) {
+		close(held[i]);
+	}
+	free(held);
+	held  = NULL;
+	nheld = 0;
+	printf("dfree %s n=%d rem=%zu\n", w[1], n, rem);
+}
+
 // ctl_burst <n> [<fill>]: the control peer sends n messages (each with <fill> extra payload bytes) one after the other WITHOUT waiting in between (a well-behaved
 // peer may do that), then the harness waits (bounded) until the application has received all of them; nothing is
 // repeated.  -> "ctl_burst ok n=<n>" | "ctl_burst FAIL:<k>-of-<n>-delivered"
@@ -1472,6 +1582,9 @@ cmd_close(void)
 	r = nremoved;
 	pthread_mutex_unlock(&mtx);
 	ctl_pipe = 0;
+	while (nparked > 0) {
+		close(parked[--nparked]);
+	}
 	printf("close ok add=%zu rem=%zu ctl_eof=%d retries=%d", a, r, ctl_eof, udp_retries);
 	udp_retries = 0;
 	print_deliveries(dfrom, a);
@@ -1498,6 +1611,13 @@ main(void)
 
 	signal(SIGPIPE, SIG_IGN);
 	signal(SIGALRM, on_alarm);
+	{
+		struct rlimit rl; // dhold keeps more than a thousand sockets
+		if (getrlimit(RLIMIT_NOFILE, &rl) == 0 && rl.rlim_cur < 8192) {
+			rl.rlim_cur = rl.rlim_max < 8192 ? rl.rlim_max : 8192;
+			(void) setrlimit(RLIMIT_NOFILE, &rl);
+		}
+	}
 	if (getenv("C11_TMO") != NULL && atoi(getenv("C11_TMO")) >= 1000) {
 		TMO = atoi(getenv("C11_TMO"));
 	}
@@ -1551,6 +1671,10 @@ main(void)
 			cmd_dgram(w, nw);
 		} else if (strcmp(w[0], "dflood") == 0 && nw >= 3 && tran == T_UDP) {
 			cmd_dflood(w, nw);
+		} else if (strcmp(w[0], "dhold") == 0 && nw >= 4 && tran == T_UDP) {
+			cmd_dhold(w, nw);
+		} else if (strcmp(w[0], "dfree") == 0 && nw >= 2 && tran == T_UDP) {
+			cmd_dfree(w);
 		} else if (strcmp(w[0], "flood") == 0 && nw >= 3) {
 			cmd_flood(w, nw);
 		} else if (strcmp(w[0], "ctl") == 0) {
